@@ -9,6 +9,7 @@ theorems tie the transcription `resetReq` / `resetResp` of Pool.lean to the code
 exactly the fields of the Go struct, and the Go `Reset` leaves no field out.
 -/
 namespace C18
+open B
 
 /-- the Go names of the fields of `ReqObj`, in the order of the structure (`hasCtx` = `ctx`, `raw` = `RawRequest`) -/
 def modelRequestFields : List String :=
@@ -33,5 +34,127 @@ theorem response_reset_touches_every_field :
 theorem model_response_has_the_fields :
     Facts.responseFields.all (fun f => modelResponseFields.contains f) = true ∧
     modelResponseFields.all (fun f => Facts.responseFields.contains f) = true := by decide
+
+/-! ### what `Reset` DOES to each field (regenerated effect list) -/
+
+/-- fields a plain zero value clears (`""`, `nil`, `0`, `false`; `noBody` is the zero `bodyType`): what the model
+    object holds afterwards. A zeroed `method` / `boundary` is NOT what `Reset` must leave (GET, the default boundary),
+    so those two give a different object than `resetReq`. -/
+def zeroReqField : String → Option (ReqObj → ReqObj)
+  | "url" => some fun o => { o with url := [] }
+  | "method" => some fun o => { o with method := [] }
+  | "userAgent" => some fun o => { o with userAgent := [] }
+  | "referer" => some fun o => { o with referer := [] }
+  | "ctx" => some fun o => { o with hasCtx := false }
+  | "client" => some fun o => { o with client := none }
+  | "body" => some fun o => { o with body := none }
+  | "timeout" => some fun o => { o with timeout := 0 }
+  | "maxRedirects" => some fun o => { o with maxRedirects := 0 }
+  | "bodyType" => some fun o => { o with bodyType := .noBody }
+  | "boundary" => some fun o => { o with boundary := [] }
+  | "files" => some fun o => { o with files := [] }
+  | _ => none
+
+/-- fields that are containers with a `Reset` of their own (pointers: a `nil` would not be a reset) -/
+def helperReqField : String → Option (ReqObj → ReqObj)
+  | "formData" => some fun o => { o with formData := [] }
+  | "path" => some fun o => { o with path := [] }
+  | "cookies" => some fun o => { o with cookies := [] }
+  | "header" => some fun o => { o with header := [] }
+  | "params" => some fun o => { o with params := [] }
+  | "RawRequest" => some fun o => { o with raw := ([], []) }
+  | _ => none
+
+/-- the constants `Reset` assigns instead of a zero value -/
+def defaultReqField : String → String → Option (ReqObj → ReqObj)
+  | "method", "fiber.MethodGet" => some fun o => { o with method := b "GET" }
+  | "bodyType", "noBody" => some fun o => { o with bodyType := .noBody }
+  | "boundary", "boundary" => some fun o => { o with boundary := defaultBoundary }
+  | _, _ => none
+
+/-- one effect of the regenerated list on the model object; `none` = the translator (or this table) cannot say what
+    the field holds afterwards. `touched` and `released` change nothing: a field that is only touched stays polluted. -/
+def reqEffect (e : String × String × String) : Option (ReqObj → ReqObj) :=
+  if e.2.1 = "zero" then zeroReqField e.1
+  else if e.2.1 = "default" then defaultReqField e.1 e.2.2
+  else if e.2.1 = "helper" then (if e.2.2 = "Reset" then helperReqField e.1 else none)
+  else if e.2.1 = "pool" ∨ e.2.1 = "truncate" then (if e.1 = "files" then zeroReqField e.1 else none)
+  else if e.2.1 = "touched" ∨ e.2.1 = "released" then some id
+  else none
+
+def applyReqEffects : List (String × String × String) → ReqObj → Option ReqObj
+  | [], o => some o
+  | e :: es, o => match reqEffect e with
+    | some f => applyReqEffects es (f o)
+    | none => none
+
+def zeroRespField : String → Option (RespObj → RespObj)
+  | "client" => some fun o => { o with client := none }
+  | "request" => some fun o => { o with request := none }
+  | "cookie" => some fun o => { o with cookie := [] }
+  | _ => none
+
+def respEffect (e : String × String × String) : Option (RespObj → RespObj) :=
+  if e.2.1 = "zero" then zeroRespField e.1
+  else if e.2.1 = "helper" then (if e.1 = "RawResponse" ∧ e.2.2 = "Reset" then some fun o => { o with raw := ([], []) } else none)
+  else if e.2.1 = "pool" ∨ e.2.1 = "truncate" then (if e.1 = "cookie" then zeroRespField e.1 else none)
+  else if e.2.1 = "touched" ∨ e.2.1 = "released" then some id
+  else none
+
+def applyRespEffects : List (String × String × String) → RespObj → Option RespObj
+  | [], o => some o
+  | e :: es, o => match respEffect e with
+    | some f => applyRespEffects es (f o)
+    | none => none
+
+/-- REGENERATED FACT, per field: executing the effects `(*Request).Reset` has in /repo — zero value assigned, default
+    assigned, the field's own `Reset` called, elements drained into their pool — on ANY object gives exactly the object
+    the transcription `resetReq` gives. A field that is merely touched, assigned something the translator cannot read,
+    reset only under a condition, or set to another constant breaks this theorem. -/
+theorem request_reset_clears_every_field (o : ReqObj) :
+    applyReqEffects Facts.requestResetEffects o = some (resetReq o) := by
+  cases o; rfl
+
+/-- the same for `(*Response).Reset` -/
+theorem response_reset_clears_every_field (o : RespObj) :
+    applyRespEffects Facts.responseResetEffects o = some (resetResp o) := by
+  cases o; rfl
+
+/-- the pooled elements (`files`: `ReleaseFile`, response cookies: `fasthttp.ReleaseCookie`) go back to their pools -/
+theorem pooled_elements_are_released :
+    Facts.requestResetEffects.any (fun e => e.1 == "files" && (e.2.1 == "pool" || e.2.1 == "released") && e.2.2 == "ReleaseFile") = true ∧
+    Facts.responseResetEffects.any (fun e => e.1 == "cookie" && (e.2.1 == "pool" || e.2.1 == "released") &&
+      e.2.2 == "fasthttp.ReleaseCookie") = true := by decide
+
+/-- a used object: every field differs from a new one -/
+def pollutedReq : ReqObj :=
+  { hasCtx := true, body := some (b "x"), header := [(b "X-A", b "1")], params := [(b "p", b "1")],
+    cookies := [(b "c", b "1")], path := [(b "id", b "1")], client := some 7, formData := [(b "f", b "1")],
+    raw := ([(b "X-A", b "1")], b "x"), url := b "http://a/", method := b "POST", userAgent := b "ua",
+    boundary := b "bb", referer := b "r", files := [(b "f", b "n", b "c")], timeout := 5, maxRedirects := 2,
+    bodyType := .rawBody }
+
+/-- non-vacuity: the code's effects turn the polluted object into a released new one -/
+example : applyReqEffects Facts.requestResetEffects pollutedReq = some (resetReq newReq) := by decide
+example : applyRespEffects Facts.responseResetEffects
+    { client := some 1, request := some 2, cookie := [3, 4], raw := ([(b "Set-Cookie", b "k=v")], b "x") } = some newResp := by decide
+
+/-- sensitivity: `path` only touched (`_ = r.path`), `method` zeroed, `client` left out — each gives another object -/
+example : applyReqEffects (Facts.requestResetEffects.map fun e => if e.1 = "path" then ("path", "touched", "") else e)
+    pollutedReq ≠ some (resetReq pollutedReq) := by decide
+example : applyReqEffects (Facts.requestResetEffects.map fun e => if e.1 = "method" then ("method", "zero", "") else e)
+    pollutedReq ≠ some (resetReq pollutedReq) := by decide
+example : applyReqEffects (Facts.requestResetEffects.filter fun e => e.1 != "client") pollutedReq ≠
+    some (resetReq pollutedReq) := by decide
+example : applyRespEffects (Facts.responseResetEffects.filter fun e => e.1 != "request")
+    { client := some 1, request := some 2, cookie := [3], raw := ([], []) } ≠ some newResp := by decide
+
+/-- hence the leak theorem of Props.lean holds for the Reset the CODE performs: a request configured on an object
+    that went through the code's effects is the request configured on a released new object -/
+theorem pooled_request_no_leak_by_code (ss pollution : List Setter) :
+    (applyReqEffects Facts.requestResetEffects (configure pollution newReq)).map (configure ss) =
+    some (configure ss (resetReq newReq)) := by
+  rw [request_reset_clears_every_field]
+  cases h : configure pollution newReq; rfl
 
 end C18
